@@ -1,6 +1,6 @@
 """C02: only current members can follow the group; secrets go only to entitled keys."""
 from corecheck import run_core
 def run(ctx):
-    return run_core(ctx, "C02", sim_cfgs=["SIM_core", "SIM_tree", "SIM_kem", "SIM_ext"], need_stats=("commit_recipient_checks", "zombie_feeds", "DeliverCommit:ok:removed"),
+    return run_core(ctx, "C02", mc_thorough=["MC_core_mid", "MC_ext"], sim_cfgs=["SIM_core", "SIM_tree", "SIM_kem", "SIM_ext"], need_stats=("commit_recipient_checks", "zombie_feeds", "DeliverCommit:ok:removed"),
                     need_shapes=("removed", "interior_blank"),
                     invariants_note="RecipientsEntitled (MlsGroup.tla); concrete: multiset of HPKE recipients of every commit (recording provider) equals the model's copath-resolution recipients and the added key packages' init keys; retained groups of removed members reject all later traffic unchanged")
